@@ -121,6 +121,83 @@ func c17Escapes(c *Ctx) {
 			repl[o] = nw
 		}
 	}
+	// the same table given to a strings.Replacer (one pass instead of one ReplaceAll per pair): the pairs of every
+	// strings.NewReplacer of the package whose Replace / WriteString is called in Bquote
+	replacerPairs := map[ssa.Value][][2]string{}
+	var initFns []*ssa.Function
+	if sp := c.SSAPkgs["dnsdata/quote"]; sp != nil {
+		if f := sp.Func("init"); f != nil {
+			initFns = append(initFns, f)
+		}
+	}
+	initFns = append(initFns, c.OurFuncs("dnsdata/quote")...)
+	for _, g := range initFns {
+		for _, ci := range callInstrs(g) {
+			f := calleeOf(ci.Common())
+			if f == nil || f.Pkg() == nil || f.Pkg().Path() != "strings" || f.Name() != "NewReplacer" || len(ci.Common().Args) != 1 {
+				continue
+			}
+			sl, ok := ci.Common().Args[0].(*ssa.Slice)
+			if !ok {
+				continue
+			}
+			al, ok := sl.X.(*ssa.Alloc)
+			if !ok {
+				continue
+			}
+			elems := map[int64]string{}
+			for _, r := range *al.Referrers() {
+				if ia, ok := r.(*ssa.IndexAddr); ok {
+					idx, isK := constInt(ia.Index)
+					for _, rr := range *ia.Referrers() {
+						if st, ok := rr.(*ssa.Store); ok && isK {
+							if sv, ok := stringConst(st.Val); ok {
+								elems[idx] = sv
+							}
+						}
+					}
+				}
+			}
+			var pairs [][2]string
+			for i := int64(0); ; i += 2 {
+				o, ok1 := elems[i]
+				nw, ok2 := elems[i+1]
+				if !ok1 || !ok2 {
+					break
+				}
+				pairs = append(pairs, [2]string{o, nw})
+			}
+			call, _ := ci.(*ssa.Call)
+			if call == nil {
+				continue
+			}
+			replacerPairs[call] = pairs
+			for _, r := range *call.Referrers() {
+				if st, ok := r.(*ssa.Store); ok {
+					replacerPairs[st.Addr] = pairs // the package-level variable it is kept in
+				}
+			}
+		}
+	}
+	nReplacerPairs := 0
+	for _, ci := range callInstrs(fn) {
+		f := calleeOf(ci.Common())
+		if f == nil || f.Pkg() == nil || f.Pkg().Path() != "strings" || (f.Name() != "Replace" && f.Name() != "WriteString") || len(ci.Common().Args) == 0 {
+			continue
+		}
+		for src := range sourcesOf(ci.Common().Args[0]) {
+			var pairs [][2]string
+			if u, ok := src.(*ssa.UnOp); ok {
+				pairs = replacerPairs[u.X]
+			} else {
+				pairs = replacerPairs[src]
+			}
+			for _, pr := range pairs {
+				repl[pr[0]] = pr[1]
+				nReplacerPairs++
+			}
+		}
+	}
 	var names []string
 	for n := range seps {
 		names = append(names, n)
@@ -154,6 +231,9 @@ func c17Escapes(c *Ctx) {
 					}
 					if f.Pkg().Path() == "bytes" && f.Name() == "ReplaceAll" {
 						n++
+					}
+					if f.Pkg().Path() == "strings" && (f.Name() == "Replace" || f.Name() == "WriteString") && nReplacerPairs > 0 {
+						n += nReplacerPairs
 					}
 				}
 			}
